@@ -597,8 +597,9 @@ def check_wrappers(tier):
                     for k, w in layers:
                         if k in ("count", "cutoff", "precision", "stats") and hasattr(w, "n_evaluations"):
                             if w.n_evaluations != forwarded_before[id(w)]:
-                                viol("C16", "a counting wrapper's count differs from the number of evaluate calls it forwarded",
-                                     dict(stack=stack, layer=k, call=c, count=w.n_evaluations, forwarded=forwarded_before[id(w)], maximize=mx))
+                                for pid_ in ("C16", "C03"):          # a law of the wrapper (C16) and an inexact evaluation count (C03)
+                                    viol(pid_, "a counting wrapper's count differs from the number of evaluate calls it forwarded",
+                                         dict(stack=stack, layer=k, call=c, count=w.n_evaluations, forwarded=forwarded_before[id(w)], maximize=mx))
                         if k == "precision":
                             if w.hit_precision and id(w) not in first_hit:
                                 first_hit[id(w)] = forwarded_before[id(w)]
